@@ -250,6 +250,9 @@ def work(item):
             dom = domain(enc, a, ss[a])
             P = AppliedPoint(list(ss[a].base_scalars), ss[a])
             comps = sp.symbols("v1 v2 v3", real=True)
+            # not the first conversion between these two system objects: another vector at ANOTHER point has been converted before
+            P0 = AppliedPoint([sp.Rational(3, 2), sp.Rational(1, 3), sp.Rational(2, 3)], ss[a])
+            convert_vector(sum((c * e for c, e in zip((1, 2, 3), ss[a].base_vectors(P0))), sp.S.Zero), P0, ss[b])
             ea = ss[a].base_vectors(P)
             v = sum((c * e for c, e in zip(comps, ea)), sp.S.Zero)
             w = convert_vector(v, P, ss[b])
@@ -350,6 +353,8 @@ try:
         elif kind == "vector":
             a, b = item[1], item[2]
             pa = to_sys(a, cart_pt) if a != "cart" else list(cart_pt)
+            P0 = AppliedPoint([sp.Rational(3, 2), sp.Rational(1, 3), sp.Rational(2, 3)], ss[a])
+            convert_vector(sum((c * e for c, e in zip((1, 2, 3), ss[a].base_vectors(P0))), sp.S.Zero), P0, ss[b])      # an earlier conversion at another point
             P = AppliedPoint(pa, ss[a]); comps = [sp.Rational(2, 3), -sp.Rational(5, 4), sp.Rational(7, 2)]
             v = sum((c * e for c, e in zip(comps, ss[a].base_vectors(P))), sp.S.Zero)
             w = sp.expand(convert_vector(v, P, ss[b])); Pb = convert_point(P, ss[b]); eb = ss[b].base_vectors(Pb)
